@@ -71,6 +71,13 @@ Fixpoint otr (n : nat) : Op n -> C :=
   | O => fun x => x
   | S m => fun x => cadd (otr m (q00 x)) (otr m (q11 x))
   end.
+(* tr (x y) computed without forming the product (proved equal to otr (omul x y) in ShadowsProofs.v) *)
+Fixpoint pairing (n : nat) : Op n -> Op n -> C :=
+  match n return Op n -> Op n -> C with
+  | O => cmul
+  | S m => fun x y => cadd (cadd (pairing m (q00 x) (q00 y)) (pairing m (q01 x) (q10 y)))
+                           (cadd (pairing m (q10 x) (q01 y)) (pairing m (q11 x) (q11 y)))
+  end.
 Fixpoint oadj (n : nat) : Op n -> Op n :=
   match n return Op n -> Op n with
   | O => cconj
@@ -171,6 +178,9 @@ Fixpoint all_rb (n : nat) : list (list RB) :=
 Fixpoint w3 (n : nat) : Qc := match n with O => 1%Qc | S m => (qthird * w3 m)%Qc end.
 Definition prob (n : nat) (rho : Op n) (rb : list RB) : C :=
   cmul (cq (w3 n)) (otr n (omul n rho (proj n rb))).
+(* same value, cheaper to evaluate (prob_fast_eq in ShadowsProofs.v); used only by check_case *)
+Definition prob_fast (n : nat) (rho : Op n) (rb : list RB) : C :=
+  cmul (cq (w3 n)) (pairing n rho (proj n rb)).
 (* the average of the snapshot over all recipes and outcomes *)
 Definition avg (n : nat) (rho : Op n) : Op n :=
   osum n (map (fun rb => oscale n (prob n rho rb) (snap n rb)) (all_rb n)).
@@ -229,6 +239,8 @@ Definition qsum (l : list Qc) : Qc := fold_right Qcplus 0%Qc l.
 Definition est_ham (rb : list RB) (h : Ham) : Qc := qsum (map (fun t => (fst t * est rb (snd t))%Qc) h).
 Definition exact_ham (n : nat) (rho : Op n) (h : Ham) : C :=
   csum (map (fun t => cmul (cq (fst t)) (otr n (omul n rho (pword n (snd t))))) h).
+Definition exact_ham_fast (n : nat) (rho : Op n) (h : Ham) : C :=
+  csum (map (fun t => cmul (cq (fst t)) (pairing n rho (pword n (snd t)))) h).
 
 (* ------------------------------------------------------------------ documented form of bits / recipes *)
 Definition in01 (z : Z) : bool := Z.eqb z 0 || Z.eqb z 1.
@@ -315,14 +327,14 @@ Definition check_case (c : Case) : bool :=
       (* (2) the implementation's snapshots, weighted by the exact probabilities, average to rho *)
       && oeqb n (osum n (map (fun p =>
                    let '(_, _, gs, _, _) := snd p in
-                   oscale n (cmul (prob n rho (fst p)) (cq (/ pow2q n)%Qc)) (of_rows n (map (map zc) gs)))
+                   oscale n (cmul (prob_fast n rho (fst p)) (cq (/ pow2q n)%Qc)) (of_rows n (map (map zc) gs)))
                  (combine (all_rb n) rws))) rho
       (* (3) the implementation's single-snapshot estimates average to tr(rho H) *)
       && list_eqb (fun h k =>
             ceqb (csum (map (fun p => let '(_, _, _, _, hv) := snd p in
-                                      cmul (prob n rho (fst p)) (cq (ratq (nth k hv (0%Z, 1%positive)))))
+                                      cmul (prob_fast n rho (fst p)) (cq (ratq (nth k hv (0%Z, 1%positive)))))
                             (combine (all_rb n) rws)))
-                 (exact_ham n rho h))
+                 (exact_ham_fast n rho h))
            hs (seq 0 (length hs))
   end.
 
